@@ -202,6 +202,34 @@ func (a *c02Auto) discharge(s *panicSite) string {
 				}
 			}
 		}
+		// index-result: s[:i] / s[i:] where i = strings.Index*/IndexAny/…(s, …) on the
+		// sliced string itself and the slice is dominated by the i >= 0 edge: the index
+		// functions return -1 or a position in [0, len(s)) (documented)
+		for _, bound := range []ssa.Value{v.Low, v.High} {
+			if bound == nil {
+				continue
+			}
+			other := v.High
+			if bound == v.High {
+				other = v.Low
+			}
+			if other != nil {
+				if k, isK := other.(*ssa.Const); !isK || k.Value == nil || k.Int64() != 0 {
+					continue
+				}
+			}
+			call, ok := bound.(*ssa.Call)
+			if !ok || len(call.Call.Args) < 1 || call.Call.Args[0] != v.X {
+				continue
+			}
+			switch staticCalleeName(&call.Call) {
+			case "strings.Index", "strings.LastIndex", "strings.IndexByte", "strings.LastIndexByte", "strings.IndexRune", "strings.IndexAny", "strings.LastIndexAny", "strings.IndexFunc", "strings.LastIndexFunc",
+				"bytes.Index", "bytes.LastIndex", "bytes.IndexByte", "bytes.LastIndexByte", "bytes.IndexAny", "bytes.IndexRune", "bytes.IndexFunc":
+				if nonNegativeGuard(in.Block(), call) {
+					return "index-result: the bound is " + staticCalleeName(&call.Call) + "(s, …) on the sliced value itself, used under its >= 0 edge, hence in [0, len(s))"
+				}
+			}
+		}
 		return ""
 	default:
 		return ""
@@ -443,4 +471,55 @@ func indexSumGuard(in ssa.Instruction, x, idx ssa.Value) string {
 		return "index-sum-guard: dominated by (" + base.Name() + "+" + itoa(int(k)) + ") < len of the same slice, with a counter that starts at a non-negative constant and never decreases"
 	}
 	return ""
+}
+
+// nonNegativeGuard: block b is dominated by the edge of a test of v on which
+// v >= 0 (v >= 0, v > -1, v != -1, !(v < 0), !(v == -1)).
+func nonNegativeGuard(b *ssa.BasicBlock, v ssa.Value) bool {
+	for d := b; d != nil; d = d.Idom() {
+		id := d.Idom()
+		if id == nil {
+			return false
+		}
+		iff, ok := id.Instrs[len(id.Instrs)-1].(*ssa.If)
+		if !ok {
+			continue
+		}
+		cond, flip := iff.Cond, false
+		for {
+			if u, ok := cond.(*ssa.UnOp); ok && u.Op == token.NOT {
+				cond, flip = u.X, !flip
+				continue
+			}
+			break
+		}
+		bo, ok := cond.(*ssa.BinOp)
+		if !ok || bo.X != v {
+			continue
+		}
+		k, isK := bo.Y.(*ssa.Const)
+		if !isK || k.Value == nil || k.Value.Kind() != constant.Int {
+			continue
+		}
+		c := k.Int64()
+		// on which edge (true=0 / false=1) does v >= 0 hold?
+		edge := -1
+		switch {
+		case bo.Op == token.GEQ && c == 0, bo.Op == token.GTR && c == -1, bo.Op == token.NEQ && c == -1:
+			edge = 0
+		case bo.Op == token.LSS && c == 0, bo.Op == token.LEQ && c == -1, bo.Op == token.EQL && c == -1:
+			edge = 1
+		}
+		if edge < 0 {
+			continue
+		}
+		if flip {
+			edge = 1 - edge
+		}
+		s := id.Succs[edge]
+		if len(s.Preds) == 1 && s.Dominates(b) {
+			return true
+		}
+	}
+	return false
 }
